@@ -1283,10 +1283,21 @@ def judge(chk, traces, label, seen):
             elif e["op"] == "rpm":
                 chk.monitor("RPMEqualsRP", len(e["out"]))
         if v["viol"]:
+            tainted = []        # (object, property, monitor, sig) of listed findings that happened earlier in this trace
             for m, l in sorted(v["viol"], key=lambda x: (x[1], x[0])):
                 ev = t["evs"][l - 1]
                 pre = state_before(t, l)
                 sig = classify(t, m, ev, pre)
+                # what follows a listed finding in the same history, on the object it left unreadable, is that finding
+                # again and not a new one: the cell is still in the state the finding produced
+                touched = {ev["o"]} | {r["o"] for r in ev.get("refs", [])} | {el["o"] for el in ev.get("out", [])}
+                cons = [x for x in tainted if x[0] in touched and pre.get(x[0], {}).get(x[1], {}).get("st") == "err"]
+                if cons:
+                    chk.violation(cons[0][2], cons[0][3], {"consequence_at_step": l})      # counted as a hit of that finding
+                    chk.extra["steps_behind_a_listed_finding_not_judged"] = chk.extra.get("steps_behind_a_listed_finding_not_judged", 0) + 1
+                    continue
+                if chk.known_id(m, sig):
+                    tainted.append((ev["o"], ev["p"], m, sig))
                 gkey = (m, sig.get("case"), sig.get("kind"), sig.get("elem_class"), sig.get("index"), sig.get("value"),
                         sig.get("cell_before"), sig.get("twin"), sig.get("answer"), sig["prop"] if sig["prop"] in FROZEN else "")
                 chk.extra.setdefault("violation_classes", {})
